@@ -197,7 +197,15 @@ func TestForward(t *testing.T) {
 			_ = a.Conn.Close()
 		})
 
-		route := config.Route{Host: []string{"*"}, Backend: []string{net.JoinHostPort(bhName, itoa(be.Port))},
+		backends := []string{net.JoinHostPort(bhName, itoa(be.Port))}
+		if tc.Delivery == "after-failed-backend" {
+			// a closed port on the same host is tried (and refused) first
+			if dp, release, err := literig.ReserveClosedPort(); err == nil {
+				defer release()
+				backends = append([]string{net.JoinHostPort(bhName, itoa(dp))}, backends...)
+			}
+		}
+		route := config.Route{Host: []string{"*"}, Backend: backends,
 			ProxyProtocol: tc.Pp, ModifyVirtualHost: tc.Mvh}
 		if tc.Tcps {
 			if ci%3 == 0 {
@@ -246,7 +254,7 @@ func TestForward(t *testing.T) {
 		go func() {
 			defer wwg.Done()
 			switch tc.Delivery {
-			case "one-segment", "grouped":
+			case "one-segment", "grouped", "after-failed-backend":
 				_, _ = cl.Write(append(append([]byte{}, frame...), rest...))
 			case "handshake-first":
 				_, _ = cl.Write(frame)
